@@ -176,9 +176,12 @@ def is_family_expr(fa: FuncAnalysis, n: Node, e, fam: Set[str], depth=0) -> bool
                 return False
             a = d.ast
             if d.kind == "handler":
-                # the caught exception itself: family only if the handler catches only family classes
+                # the caught exception itself: family only if the handler catches only family classes ...
                 if not all(t.split(".")[-1] in fam for t in handler_type_names(a)):
-                    return False
+                    # ... or, on every path on which this binding is still the value, an isinstance test against
+                    # family classes has succeeded (`if not isinstance(e, ParseError): e = ParseError(..)`)
+                    if not _family_by_test(fa, n, e.id, fam, d):
+                        return False
                 continue
             if d.kind == "stmt" and isinstance(a, ast.Assign) and len(a.targets) == 1 \
                     and isinstance(a.targets[0], ast.Name):
@@ -188,6 +191,32 @@ def is_family_expr(fa: FuncAnalysis, n: Node, e, fam: Set[str], depth=0) -> bool
             return False
         return True
     return False
+
+
+def _family_by_test(fa: FuncAnalysis, n: Node, name: str, fam, d: Optional[Node] = None) -> bool:
+    """every path reaching n [on which the binding made at d is still the value of `name`] has passed an
+    `isinstance(name, <family classes>)` test that held"""
+    pf = fa.paths_for(("isinstance(" + name, name + ":="))
+    ds = pf.disjuncts_at(n)
+    if not ds:
+        return False
+    considered = 0
+    for dj in ds:
+        if d is not None and dj.get(f"{name}:={d.id}") is not True:
+            continue            # another binding is the value on these paths (judged on its own)
+        considered += 1
+        ok = False
+        for t, pol in dj.items():
+            a = pf.atom_ast.get(t)
+            if pol and isinstance(a, ast.Call) and call_attr(a) == "isinstance" and len(a.args) == 2 \
+                    and isinstance(a.args[0], ast.Name) and a.args[0].id == name:
+                names = [unparse(x).split(".")[-1] for x in
+                         (a.args[1].elts if isinstance(a.args[1], ast.Tuple) else [a.args[1]])]
+                if names and all(c in fam for c in names):
+                    ok = True
+        if not ok:
+            return False
+    return considered > 0
 
 
 # ---- R04a ------------------------------------------------------------------------------------------
@@ -240,7 +269,8 @@ def r04a(run):
             elif isinstance(st, ast.Raise):
                 nh += 1
                 if st.exc is None:
-                    ok = all(t.split(".")[-1] in fam for t in handler_type_names(h))
+                    ok = all(t.split(".")[-1] in fam for t in handler_type_names(h)) or (
+                        bool(h.name) and _family_by_test(fa, node, h.name, fam))
                 else:
                     ok = is_family_expr(fa, node, st.exc, fam)
                 run.check("R04a", f, f"handler re-raises a ParseError-family error: `{norm_stmt(st)[:80]}`", ok,
